@@ -149,6 +149,12 @@ def generate(rs: int, tier: str, index: int) -> dict:
                 d = max(d, 2)
                 step["keys"] = [[(top - ck.below(4)) if ck.chance(0.5) else ck.below(4) for _ in range(n)] for _ in range(d)]
                 step["key_dtype"] = dt
+            elif ck.chance(0.12):
+                # keys that are not whole numbers (dyadic fractions: their sums are exact): 1.25 sorts before 1.5
+                step["keys"] = [[v + ck.choice([0, 0.25, 0.5, 0.75]) for v in row] for row in (keys if isinstance(keys[0], list) else [keys])]
+                if len(step["keys"]) == 1 and ck.chance(0.5):
+                    step["keys"] = step["keys"][0]
+                step["key_dtype"] = "float64"
         elif kind == "glexindex":
             step = dict(_gen_index_case(ch.sub("c")), id=0, k="glexindex", mutate_first=ch.chance(0.3))
         elif kind == "bindex":
@@ -320,7 +326,7 @@ class Runner:
         keys = numpy.array(step["keys"], dtype=step.get("key_dtype", int))
         keys2 = numpy.atleast_2d(numpy.array(step["keys"], dtype=object))
         n = keys2.shape[1]
-        cols = [tuple(int(v) for v in keys2[:, i]) for i in range(n)]
+        cols = [tuple((int(v) if float(v) == int(v) else float(v)) for v in keys2[:, i]) for i in range(n)]  # (fractional keys stay what they are)
         flag_sets = [(g, r) for g in (False, True) for r in (False, True)] if step.get("flags") == "all" else [(step["graded"], step["reverse"])]
         for graded, reverse in flag_sets:
             if step.get("mutate_first"):
